@@ -2180,6 +2180,13 @@ sexp sexp_apply (sexp ctx, sexp proc, sexp args) {
     errno = 0;
 #endif
     i = sexp_read_char(ctx, _ARG1);
+#if SEXP_USE_UTF8_STRINGS
+    tmp1 = SEXP_VOID;
+    if ((int)i != EOF && i >= 0x80) {
+      tmp1 = sexp_read_utf8_char(ctx, _ARG1, i);
+      if (tmp1 == SEXP_EOF) i = EOF; /* incomplete char, bytes pushed back */
+    }
+#endif
     if ((int)i == EOF) {
       if (!sexp_port_openp(_ARG1)) {
         sexp_raise("read-char: port is closed", _ARG1);
@@ -2200,7 +2207,7 @@ sexp sexp_apply (sexp ctx, sexp proc, sexp args) {
       }
 #if SEXP_USE_UTF8_STRINGS
     } else if (i >= 0x80) {
-      _ARG1 = sexp_read_utf8_char(ctx, _ARG1, i);
+      _ARG1 = tmp1;
 #endif
     } else {
       if (i == '\n') sexp_port_line(_ARG1)++;
@@ -2216,6 +2223,13 @@ sexp sexp_apply (sexp ctx, sexp proc, sexp args) {
     errno = 0;
 #endif
     i = sexp_read_char(ctx, _ARG1);
+#if SEXP_USE_UTF8_STRINGS
+    tmp1 = SEXP_VOID;
+    if ((int)i != EOF && i >= 0x80) {
+      tmp1 = sexp_read_utf8_char(ctx, _ARG1, i);
+      if (tmp1 == SEXP_EOF) i = EOF; /* incomplete char, bytes pushed back */
+    }
+#endif
     if ((int)i == EOF) {
       if (!sexp_port_openp(_ARG1))
         sexp_raise("peek-char: port is closed", _ARG1);
@@ -2235,8 +2249,8 @@ sexp sexp_apply (sexp ctx, sexp proc, sexp args) {
         _ARG1 = SEXP_EOF;
 #if SEXP_USE_UTF8_STRINGS
     } else if (i >= 0x80) {
-      tmp1 = sexp_read_utf8_char(ctx, _ARG1, i);
-      sexp_push_utf8_char(ctx, sexp_unbox_character(tmp1), _ARG1);
+      if (sexp_charp(tmp1))
+        sexp_push_utf8_char(ctx, sexp_unbox_character(tmp1), _ARG1);
       _ARG1 = tmp1;
 #endif
     } else {
